@@ -198,7 +198,7 @@ def full_check(ctx, cls, n, scripts, opts, spec, entry, arg, tol, faults, case, 
 def run_shard(ctx):
     Base, T, T2 = classes()
     rng = ctx.rng('c17')
-    count = ctx.pick(60, 1200)
+    count = ctx.pick(250, 6000)
     for i in range(count):
         n = rng.choice([3, 4, 5])
         cls = rng.choice([T, T, T2])
@@ -249,7 +249,7 @@ def parser_models(ctx):
         class TR(TracerMixin, R):
             pass
 
-        for rep in range(ctx.pick(6, 60)):
+        for rep in range(ctx.pick(20, 200)):
             n = Model.LAGS + 4
             spec = rng.choice([True, list(Model.ENDOGENOUS), Model.NAMES[-1]])
             data = {nm: rng.choice([0.5, 1.0, 2.0]) for nm in Model.NAMES if nm not in Model.ENDOGENOUS}
